@@ -182,7 +182,7 @@ pub fn run(args: &Args) {
     }
 
     // ---- random large maps -----------------------------------------------------------------
-    let n = if under_miri { args.n(60, 200) } else { args.n(20_000, 400_000) };
+    let n = if under_miri { args.n(60, 200) } else { args.n(200_000, 2_000_000) };
     for i in 0..n {
         let mut rng = Rng::fork(args.seed, i);
         let big = rng.bool();
